@@ -1,5 +1,6 @@
 import GopatchModel.FileM
 import GopatchModel.Spec.LoaderSpec
+import GopatchModel.Spec.ApiLoop
 namespace Gopatch.C09
 open Gopatch
 
@@ -77,6 +78,29 @@ theorem failure_reported (a b : List Change) (c : Change) (f : FileM) (m : Bool)
     ∃ g, applyChangesCli (a ++ c :: b) f m = (g, false, some e) := by
   rw [sequential, h1]
   simp [applyChangesCli, h2]
+
+/-- **The library fails exactly when the command line does.** `patch.File.Apply` goes on after a refused change, on
+whatever tree the refused change left (`dmg`, arbitrary); the command line stops. All the same: when no change is refused
+both end with the same tree and no error, and when the command line reports the error `e` of the first refused change, the
+library reports errors too, `e` first - so it returns no bytes. -/
+theorem library_fails_exactly_when_the_command_line_does (dmg : Change → FileM → FileM) :
+    ∀ (cs : List Change) (f : FileM) (m : Bool),
+      match applyChangesCli cs f m with
+      | (g, m', none) => applyChangesApi dmg cs f m [] = (g, m', [])
+      | (_, _, some e) => ∃ g m' es, applyChangesApi dmg cs f m [] = (g, m', e :: es)
+  | [], f, m => by simp [applyChangesCli, applyChangesApi]
+  | c :: cs, f, m => by
+    cases ha : applyChange c f with
+    | noMatch =>
+      have ih := library_fails_exactly_when_the_command_line_does dmg cs f m
+      simpa [applyChangesCli, applyChangesApi, ha] using ih
+    | ok f' k =>
+      have ih := library_fails_exactly_when_the_command_line_does dmg cs f' true
+      simpa [applyChangesCli, applyChangesApi, ha] using ih
+    | fail e =>
+      obtain ⟨g, m', es', h⟩ := api_errors_grow dmg cs (dmg c f) m [e]
+      simp only [applyChangesCli, ha, applyChangesApi, List.nil_append]
+      exact ⟨g, m', es', by simpa using h⟩
 
 /-- the order in which patches given with -p and -P are loaded: flags first, in the order
 given, then the files of the list, in file order; stdin only when neither is given -/
